@@ -241,7 +241,7 @@ def r203(ctx):
     stores = [s for s in iter_child_stmts(f.body) if isinstance(s, (ast.Assign, ast.AugAssign)) and
               any(isinstance(t, (ast.Attribute, ast.Subscript)) and ss.root_name(t) == 'fmd'
                   for t in (s.targets if isinstance(s, ast.Assign) else [s.target]))]
-    ctx.floor('R20.3', 'stores into file metadata in make_part_file', len(stores), 2)
+    ctx.floor('R20.3', 'stores into file metadata in make_part_file', len(stores), 1)
     for s in stores:
         ok = bool(rebinding) and cfg.set_dominates({cfg.node_of(r) for r in rebinding}, cfg.node_of(s))
         ctx.ob('R20.3', 'writer.make_part_file:store-follows-private-copy:%s' % norm(s)[:40], ok,
